@@ -16,7 +16,7 @@ RULE = ("programs drawn from a typed grammar of the documented ONNX Script subse
         "Split/TopK, if/else on a one-element condition, for over range(literal|attribute|INT64 tensor) with optional trailing "
         "conditional break, while with reassigned condition, nesting <=2, variables defined in one or both branches, loop-carried and "
         "captured variables, calls to generated helper script functions, tuple returns, returned parameters / duplicates, inputs passed "
-        "by keyword after an omitted optional input, shape-preserving Slice/Gather subscripts, while bodies whose last statement "
+        "by keyword after an omitted optional input, shape-preserving Slice/Gather subscripts incl. empty slices (explicit stop 0, start >= stop, negative bounds) glued back with Concat, while bodies whose last statement "
         "conditionally updates a variable only the next iteration reads; 1 program in 16 is a comparison/Where/if program run on "
         "NaN, +-inf, +-0 and ties); each "
         "program is executed 4 ways per input: eager, ORT(to_model_proto) [attribute-free programs], ORT(model calling "
